@@ -835,7 +835,9 @@ func TestVerifC14(t *testing.T) {
 		exact := truth[s : s+int64(r.l)]
 		bodies := map[string][]byte{"exact": exact, "truncated": exact[:len(exact)/2], "overlong": append(append([]byte{}, exact...), bytes.Repeat([]byte{0xEE}, 20000)...), "empty": nil,
 			"one-short": exact[:len(exact)-1]}
-		for bn, body := range bodies {
+		// fixed order: the shards are separate processes and must agree on the cell a counter value names
+		for _, bn := range []string{"exact", "truncated", "overlong", "empty", "one-short"} {
+			body := bodies[bn]
 			for _, mode := range []string{"write", "readfrom", "copy"} {
 				if !mine() {
 					continue
